@@ -124,5 +124,6 @@ FIXED.append("fixed: property=C15 ac3e1cd a FHIR date element whose proto carrie
 FIXED.append("fixed: property=C02 bc4a80e `Patient.text.div.value` (the xhtml content of a narrative) failed with 'value can't be cast to system type: complex type *Xhtml', and with it children() of a Narrative and descendants() of any resource that has a narrative: Xhtml was missing from system.IsPrimitive and system.From; the C02 primitive-value stage had skipped Xhtml elements, the skip was removed when the contained-resource type tests of C12 ran into descendants()")
 k('C13', 'result-string-round-trip|Quantity|*qty.*unit*|empty|unit=', "a Quantity with the empty unit (literal 1 '', or a FHIR Quantity that has only a human-readable unit and no code) prints as the bare number, which reads back with unit '1' and is then not comparable with the original (empty-unit family, see string-round-trip|Quantity|qty.1)", {'src': "(1 '').toString().toQuantity() = (1 '')", 'got': '{}', 'want': 'true'})
 k('C13', 'string-round-trip|Quantity|*qty.*unit*|empty', "same defect seen through x.toString().toQuantity() = x for x a Quantity with the empty unit", {'src': "(1 '').toString().toQuantity() = (1 '')", 'got': '{}', 'want': 'true'})
+k('C13', 'result-string-round-trip|Quantity|*|empty|unit=*[*', "a Quantity whose UCUM unit needs quotes (brackets: mm[Hg], [in_i]) prints with the unit unquoted ('120 mm[Hg]'), which toQuantity() does not read back: same family as the unit-'1' and empty-unit entries (Quantity.String() never quotes the unit, and other code splits that string at the blank, so quoting is not a local repair)", {'src': "'120 ''mm[Hg]'''.toQuantity().toString().toQuantity()", 'got': '{}', 'want': "120 'mm[Hg]'"})
 if __name__ == '__main__':
     write()
